@@ -580,6 +580,94 @@ let run_schemaresolve payload =
        L [A "ok"; L (A "entities" :: List.map parse ents); L (A "actions" :: List.map parse acts)])
   | _ -> failwith "schemaresolve payload"
 
+(* ---- schema JSON codec on trees (Impl/SchemaJson.v); the rich AST format of harness/kinds_schemaast.go ---- *)
+let xannots_of_sx = function
+  | L (A "annots" :: kvs) -> List.map (function L [A k; A v] -> (str_of_atom k, str_of_atom v) | _ -> failwith "xannot") kvs
+  | _ -> failwith "xannots"
+let sx_of_xannots a =
+  let a = List.sort (fun (x, _) (y, _) -> compare (atom_of_str x) (atom_of_str y)) a in
+  L (A "annots" :: List.map (fun (k, v) -> L [A (atom_of_str k); A (atom_of_str v)]) a)
+let rec xty_of_sx (s : Sexp.t) : xty =
+  match s with
+  | L [A "string"] -> XString | L [A "long"] -> XLong | L [A "bool"] -> XBool
+  | L [A "ext"; A n] -> XExt (str_of_atom n)
+  | L [A "set"; t] -> XSet (xty_of_sx t)
+  | L (A "rec" :: fs) -> XRec (xrec_of_sx fs)
+  | L [A "ent"; A r] -> XEnt (str_of_atom r)
+  | L [A "ref"; A r] -> XRef (str_of_atom r)
+  | s -> failwith ("bad xschema type " ^ to_string s)
+and xrec_of_sx fs = List.map (function L [A k; t; A o; an] -> (str_of_atom k, ((xty_of_sx t, o = "1"), xannots_of_sx an)) | _ -> failwith "xrec field") fs
+let by_key l = List.sort (fun (x, _) (y, _) -> compare (atom_of_str x) (atom_of_str y)) l
+let rec sx_of_xty (t : xty) : Sexp.t =
+  match t with
+  | XString -> L [A "string"] | XLong -> L [A "long"] | XBool -> L [A "bool"]
+  | XExt n -> L [A "ext"; A (atom_of_str n)]
+  | XSet e -> L [A "set"; sx_of_xty e]
+  | XRec fs -> L (A "rec" :: List.map (fun (k, ((t, o), an)) -> L [A (atom_of_str k); sx_of_xty t; A (if o then "1" else "0"); sx_of_xannots an]) (by_key fs))
+  | XEnt r -> L [A "ent"; A (atom_of_str r)]
+  | XRef r -> L [A "ref"; A (atom_of_str r)]
+let xns_of_sx = function
+  | L [A "ns"; A name; an; L (A "entities" :: es); L (A "enums" :: ens); L (A "commons" :: cs); L (A "actions" :: acts)] ->
+    (str_of_atom name,
+     { xs_annots = xannots_of_sx an;
+       xs_entities = List.map (function
+           | L [A "ent"; A n; ean; L (A "parents" :: ps); L [A "shape"; sh]; L [A "tags"; tg]] ->
+             (str_of_atom n, { xe_annots = xannots_of_sx ean; xe_parents = List.map (fun p -> str_of_atom (atom p)) ps;
+                               xe_shape = (match sh with A "none" -> None | L (A "rec" :: fs) -> Some (xrec_of_sx fs) | _ -> failwith "xshape");
+                               xe_tags = (match tg with A "none" -> None | t -> Some (xty_of_sx t)) })
+           | _ -> failwith "xent") es;
+       xs_enums = List.map (function
+           | L [A "enum"; A n; ean; L (A "values" :: vs)] -> (str_of_atom n, { xn_annots = xannots_of_sx ean; xn_values = List.map (fun v -> str_of_atom (atom v)) vs })
+           | _ -> failwith "xenum") ens;
+       xs_commons = List.map (function L [A "ct"; A n; can; t] -> (str_of_atom n, { xc_annots = xannots_of_sx can; xc_type = xty_of_sx t }) | _ -> failwith "xct") cs;
+       xs_actions = List.map (function
+           | L [A "act"; A n; aan; L (A "parents" :: ps); L [A "applies"; ap]] ->
+             (str_of_atom n, { xac_annots = xannots_of_sx aan;
+                               xac_parents = List.map (function L [A t; A i] -> (str_of_atom t, str_of_atom i) | _ -> failwith "xaparent") ps;
+                               xac_applies = (match ap with
+                                   | A "none" -> None
+                                   | L [A "ap"; L (A "principals" :: pr); L (A "resources" :: rr); L [A "context"; cx]] ->
+                                     Some { xa_principals = List.map (fun p -> str_of_atom (atom p)) pr; xa_resources = List.map (fun p -> str_of_atom (atom p)) rr;
+                                            xa_context = (match cx with A "none" -> None | t -> Some (xty_of_sx t)) }
+                                   | _ -> failwith "xapplies") })
+           | _ -> failwith "xact") acts })
+  | _ -> failwith "xns"
+let sx_of_xns (name, n) =
+  L [A "ns"; A (atom_of_str name); sx_of_xannots n.xs_annots;
+     L (A "entities" :: List.map (fun (k, e) ->
+         L [A "ent"; A (atom_of_str k); sx_of_xannots e.xe_annots; L (A "parents" :: List.map (fun p -> A (atom_of_str p)) e.xe_parents);
+            L [A "shape"; (match e.xe_shape with None -> A "none" | Some fs -> sx_of_xty (XRec fs))];
+            L [A "tags"; (match e.xe_tags with None -> A "none" | Some t -> sx_of_xty t)]]) (by_key n.xs_entities));
+     L (A "enums" :: List.map (fun (k, e) ->
+         L [A "enum"; A (atom_of_str k); sx_of_xannots e.xn_annots; L (A "values" :: List.map (fun v -> A (atom_of_str v)) e.xn_values)]) (by_key n.xs_enums));
+     L (A "commons" :: List.map (fun (k, c) -> L [A "ct"; A (atom_of_str k); sx_of_xannots c.xc_annots; sx_of_xty c.xc_type]) (by_key n.xs_commons));
+     L (A "actions" :: List.map (fun (k, a) ->
+         L [A "act"; A (atom_of_str k); sx_of_xannots a.xac_annots;
+            L (A "parents" :: List.map (fun (t, i) -> L [A (atom_of_str t); A (atom_of_str i)]) a.xac_parents);
+            L [A "applies"; (match a.xac_applies with
+                | None -> A "none"
+                | Some ap -> L [A "ap"; L (A "principals" :: List.map (fun p -> A (atom_of_str p)) ap.xa_principals);
+                                L (A "resources" :: List.map (fun p -> A (atom_of_str p)) ap.xa_resources);
+                                L [A "context"; (match ap.xa_context with None -> A "none" | Some t -> sx_of_xty t)]])]]) (by_key n.xs_actions))]
+
+let run_sjsonenc payload =
+  match payload with
+  | [L (A "xschema" :: nss)] -> L [A "tree"; sx_of_json (enc_schema (List.map xns_of_sx nss))]
+  | _ -> failwith "sjsonenc payload"
+
+let run_sjsondec payload =
+  match payload with
+  | [t] ->
+    (match dec_schema (json_of_sx t) with
+     | DOk s ->
+       (* the bare namespace is listed only if it declares something (Go has no object for it) *)
+       let s = List.filter (fun (name, n) -> name <> [] || n.xs_entities <> [] || n.xs_enums <> [] || n.xs_commons <> [] || n.xs_actions <> []) s in
+       L [A "ok"; L (A "xschema" :: List.map sx_of_xns (by_key s))]
+     | DErr -> L [A "err"]
+     | DUnk -> L [A "unmodelled"]
+     | DFuel -> L [A "out-of-fuel"])
+  | _ -> failwith "sjsondec payload"
+
 (* ---- typeof: the expression type checker in one request environment ---- *)
 let rec cty_of_rsx (s : Sexp.t) : cty =
   match s with
@@ -618,10 +706,14 @@ let run_typeof payload =
                             te_tags = (match tg with A "none" -> None | t -> Some (cty_of_rsx t)) })
         | _ -> failwith "info entity") es;
         ts_enums = List.map (fun x -> str_of_atom (atom x)) ens;
-        ts_actions = List.map (function L [L [A "e"; A t; A i]; _] -> (str_of_atom t, str_of_atom i) | _ -> failwith "info action") acts } in
+        ts_actions = List.map (function L (L [A "e"; A t; A i] :: _) -> (str_of_atom t, str_of_atom i) | _ -> failwith "info action") acts;
+        ts_agraph = List.map (function
+            | L [L [A "e"; A t; A i]; _; L (A "parents" :: ps)] ->
+              ((str_of_atom t, str_of_atom i), List.map (function L [A "e"; A pt; A pi] -> (str_of_atom pt, str_of_atom pi) | _ -> failwith "info action parent") ps)
+            | _ -> failwith "info action") acts } in
     let (at, ai) = match act with L [A "e"; A t; A i] -> (str_of_atom t, str_of_atom i) | _ -> failwith "action uid" in
     let ctx = List.fold_left (fun acc a -> match a with
-        | L [L [A "e"; A t; A i]; L [A "context"; L (A "rec" :: fs)]] when str_of_atom t = at && str_of_atom i = ai -> crec_of_rsx fs
+        | L (L [A "e"; A t; A i] :: L [A "context"; L (A "rec" :: fs)] :: _) when str_of_atom t = at && str_of_atom i = ai -> crec_of_rsx fs
         | _ -> acc) [] acts in
     let env = { tv_principal = str_of_atom pt; tv_action = (at, ai); tv_resource = str_of_atom rt; tv_context = ctx } in
     (match typeof (mode = "strict") sch env (expr_of_sx e) [] with
@@ -633,6 +725,8 @@ let run_typeof payload =
 let run_case kind payload =
   match kind with
   | "typeof" -> run_typeof payload
+  | "sjsonenc" -> run_sjsonenc payload
+  | "sjsondec" -> run_sjsondec payload
   | "schemaresolve" -> run_schemaresolve payload
   | "pjsonenc" -> run_pjsonenc payload
   | "pjsondec" -> run_pjsondec payload
